@@ -56,6 +56,8 @@ def build_case(beh, name, shape_seed=0):
             elif k == "acreate":
                 res.append({"op": "acreate", "aid": o["aid"], "oid": o["oid"], "init": item(o["item"]),
                             "form": (o["aid"] + o["item"] + shape_seed) % 3, "slab": bool(o.get("slab", False))})
+                if o.get("pnotify"):
+                    res[-1]["pnotify"] = o["pnotify"]
             elif k == "call":
                 holds = {}
                 if o.get("ho"):
